@@ -442,7 +442,15 @@ func (g *G) paramWord() *Word {
 	w := &Word{}
 	n := g.n(3)
 	for i := 0; i < n; i++ {
-		switch g.n(8) {
+		switch g.n(10) {
+		case 8:
+			if !g.O.NoNested {
+				w.Parts = append(w.Parts, Part{K: "cmdsub", List: List1(Simple("c", "d"), "", false)})
+			}
+		case 9:
+			if !g.O.NoNested {
+				w.Parts = append(w.Parts, Part{K: "bq", List: List1(Simple("c"), "", false)})
+			}
 		case 0:
 			w.Parts = append(w.Parts, Part{K: "sq", S: pickS(g, []string{"", "a b", "}", "*"})})
 		case 1:
